@@ -688,9 +688,9 @@ func c16Run(tier, shard string, r *mc.Reporter) {
 		c16RefreshAfterCrash(r, scratch)
 	case "history":
 		sh, _ := strconv.Atoi(parts[1])
-		depth := 3
+		depth := 4
 		if tier == "thorough" {
-			depth = 4
+			depth = 5
 		}
 		c16Histories(r, scratch, depth, sh, 24)
 	}
@@ -729,6 +729,6 @@ func init() {
 		Assumptions: []string{"refreshSystemFontsIndex is emulated on explicit scratch directories with the same three calls (DefaultFontDirectories reads the host configuration)", "modification times are set by the harness (logical clock); a replacement with the very same mtime is outside the property",
 			"a corrupted (not truncated) cache that still parses to another index is counted, not judged: the statement only requires an error or a well-formed index"},
 		Shards: c16Shards, Run: c16Run, Replay: c16Replay,
-		Bounds: map[string]string{"quick": "corpus files <= 100 KiB in (a); (b) every 7th position of streams > 600 bytes; (d) depth 3", "thorough": "all corpus files; all positions; (d) depth 4"},
+		Bounds: map[string]string{"quick": "corpus files <= 100 KiB in (a); (b) every 7th position of streams > 600 bytes; (d) depth 4", "thorough": "all corpus files; all positions; (d) depth 5"},
 	})
 }
